@@ -81,6 +81,11 @@ Definition oracle (x : case) : bool :=
   | (PRoundtrip c, PoRound p bs back) =>
       prefix_eqb p (prefix_of_cid c) && option_eqb prefix_eqb back (Some p)
   | (PToCid cap pb data raw, PoToCid r) =>
+      (* a prefix that DECLARES a digest longer than the capacity is rejected, whatever the real digest is *)
+      (match prefix_from_bytes pb with
+       | Some p => if cap <? p_size p then to_cid_out_eqb r (ToErr InvalidMultihashSize) else true
+       | None => true
+       end) &&
       match r with
       | ToPanic => false
       | ToOk c =>
